@@ -1,4 +1,5 @@
 import HapModel.Drv.C01
+import HapModel.Drv.C03
 import HapModel.Drv.C05
 import HapModel.Drv.C12
 import HapModel.Drv.C13
@@ -24,6 +25,7 @@ def dispatch1 (op : String) (j : Json) : R Json :=
   | "bpRender" => hBpRender j
   | "clump" => hClump j
   | "validate" => hValidate j
+  | "outputVcf" => hOutputVcf j
   | _ => throw s!"unknown op {op}"
 
 /-- {"op":"batch","reqs":[…]} → {"resps":[…]} -/
